@@ -101,4 +101,36 @@ PROPS = {
                     "posit compared after EVERY step of random histories with cancellations, sign flips and carries into the capacity segment",
         assumptions=["the compiled code behaves like the model on histories that were not explored"],
     ),
+    "C03": dict(
+        harness=["h_posit"],
+        streams=posit_streams("from", 2, 1500, 40000),
+        proof_modules=["UVerifProofs.Props.C03"],
+        level="proof",
+        level_text="Lean model of value<fbits>::operator=(native) / convert_ieee754 / convert_ and the rounding relation of the target; "
+                   "sources are generated from the target lattice (every value, every (n+1)-bit midpoint, +-1 source ulp) so that each rounding boundary is hit",
+        level_note="trusted: Lean kernel, hand-written model, g++/libm frexp; families other than posit are added as their models land",
+        explanation="conversion from float/double/long double/8..64-bit integers to posit; exact rational value of the source vs. Posit-Standard rounding relation",
+        assumptions=["std::frexp / fpclassify behave as specified"],
+    ),
+    "C04": dict(
+        harness=["h_posit"],
+        streams=posit_streams("to", 6, 3000, 80000),
+        proof_modules=["UVerifProofs.Props.C04"],
+        level="proof",
+        level_text="Lean model of to_double/to_float/to_long_double (exact under the decidable guard fbits <= mantissa, scale in normal range) and of the "
+                   "integer casts (through double / long double, as the code does); every encoding of small configurations read back and round-tripped",
+        level_note="trusted: Lean kernel, hand-written model, IEEE hardware arithmetic on exact products of powers of two",
+        explanation="read-back of posits to float/double/long double/int types and round trip",
+        assumptions=["hardware multiplication of exactly representable factors with exactly representable product is exact"],
+    ),
+    "C06": dict(
+        harness=["h_posit"],
+        streams=posit_streams("order", 3, 20000, 300000),
+        proof_modules=["UVerifProofs.Props.C06"],
+        level="proof",
+        level_text="comparison operators of the model vs. the real order of the decoded values; ++/-- vs. the adjacent encoding; all ordered pairs of small configurations",
+        level_note="trusted: Lean kernel, hand-written model; families other than posit are added as their models land",
+        explanation="posit == != < <= > >= ++ -- on all ordered pairs of every configuration <= 8 bits and structured pairs above",
+        assumptions=[],
+    ),
 }
